@@ -77,4 +77,7 @@ def check(ctx):
     check_all_steps_and_storage(ctx, "C03-h", "C03-i")
     check_tables_not_mutated(ctx, "C03-g")
     check_boundary_row(ctx, "C03-j")
+    from .c09 import check_initial_value
+
+    check_initial_value(ctx, "C03-k", "C03-k", classes=("FlowProperties",))
     ctx.floor("C03", len(ctx.obligs), 10, "recovery obligations")
